@@ -116,6 +116,9 @@ fn paths(t: &Target) -> Vec<(u8, &'static str)> {
             (4, "swap_to_receiver"),
             // the direct WithdrawLiquidity {} message (meant for token-factory LP) with some coin attached
             (2, "hostile_withdraw_direct_message_with_coin"),
+            // declared amounts of exactly zero (with coins attached where the message takes coins)
+            (4, "hostile_swap_zero_amount_with_coins"),
+            (1, "hostile_provide_zero_amounts"),
         ],
         Target::Trio => vec![
             (1, "provide_direct"),
@@ -125,6 +128,8 @@ fn paths(t: &Target) -> Vec<(u8, &'static str)> {
             (1, "provide_for_receiver"),
             (4, "swap_to_receiver"),
             (2, "hostile_withdraw_direct_message_with_coin"),
+            (4, "hostile_swap_zero_amount_with_coins"),
+            (1, "hostile_provide_zero_amounts"),
         ],
         Target::Vault => vec![
             (1, "deposit_direct"),
@@ -134,6 +139,8 @@ fn paths(t: &Target) -> Vec<(u8, &'static str)> {
             // a share withdrawal issued from inside a flash-loan callback needs both switches
             (2 | 4, "withdraw_inside_flash_loan"),
             (2, "hostile_withdraw_direct_message_with_coin"),
+            (1, "hostile_deposit_zero_amount_with_coins"),
+            (4, "hostile_flash_loan_zero_amount"),
         ],
     }
 }
@@ -244,6 +251,29 @@ impl Toggle {
             }
             (Target::PairCp | Target::PairStable, "withdraw_cw20_hook") => vec![wasm_exec(&self.pair_lp, &cw20::Cw20ExecuteMsg::Send { contract: self.pair.clone(), amount: Uint128::new(a / 4), msg: to_json_binary(&pair::Cw20HookMsg::WithdrawLiquidity {}).unwrap() }, vec![])],
             (Target::PairCp | Target::PairStable, "hostile_withdraw_direct_message_with_coin") => vec![wasm_exec(&self.pair, &pair::ExecuteMsg::WithdrawLiquidity {}, vec![self.stray_coin()])],
+            (Target::PairCp | Target::PairStable | Target::Trio, "hostile_swap_zero_amount_with_coins") => match self.offer_of_kind(true) {
+                // declares an offer of 0 and attaches coins of the offered denom
+                Some((o, k)) => {
+                    let attached = vec![coin((a / 10).max(1), asset_id(&o))];
+                    match self.cfg.target {
+                        Target::Trio => vec![wasm_exec(&self.trio, &trio::ExecuteMsg::Swap { offer_asset: self.asset(&o, 0), ask_asset: k, belief_price: None, max_spread: None, to: None }, attached)],
+                        _ => vec![wasm_exec(&self.pair, &pair::ExecuteMsg::Swap { offer_asset: self.asset(&o, 0), belief_price: None, max_spread: None, to: None }, attached)],
+                    }
+                }
+                None => vec![],
+            },
+            (Target::PairCp | Target::PairStable | Target::Trio, "hostile_provide_zero_amounts") => {
+                let p = self.pool_assets();
+                match self.cfg.target {
+                    Target::Trio => vec![wasm_exec(&self.trio, &trio::ExecuteMsg::ProvideLiquidity { assets: [self.asset(&p[0], 0), self.asset(&p[1], 0), self.asset(&p[2], 0)], slippage_tolerance: None, receiver: None }, vec![])],
+                    _ => vec![wasm_exec(&self.pair, &pair::ExecuteMsg::ProvideLiquidity { assets: [self.asset(&p[0], 0), self.asset(&p[1], 0)], slippage_tolerance: None, receiver: None }, vec![])],
+                }
+            }
+            (Target::Vault, "hostile_deposit_zero_amount_with_coins") => {
+                let funds = if Self::is_native(&self.a) { vec![coin((a / 10).max(1), asset_id(&self.a))] } else { vec![coin((a / 10).max(1), "uzzz")] };
+                vec![wasm_exec(&self.vault, &vault::ExecuteMsg::Deposit { amount: Uint128::zero() }, funds)]
+            }
+            (Target::Vault, "hostile_flash_loan_zero_amount") => vec![wasm_exec(&self.borrower, &vh::ExecuteMsg::Run { program: vec![Action::Loan { vault: self.vault.clone(), amount: Uint128::zero(), program: vec![] }] }, vec![])],
             (Target::PairCp | Target::PairStable | Target::Trio, "swap_native_message") => match self.offer_of_kind(true) {
                 Some((o, k)) => self.swap_msgs(&o, &k, a / 10, None),
                 None => vec![],
